@@ -498,7 +498,7 @@ func runSharded(c *runCtx, name string, body func(shard, shards int, sink *shard
 
 				return
 			}
-			cmd := exec.Command(os.Args[0], "-test.run", "^TestVerifMain$", "-test.timeout", "0") //nolint:gosec
+			cmd := exec.Command(os.Args[0], childArgs("-test.run", "^TestVerifMain$", "-test.timeout", "0")...) //nolint:gosec
 			cmd.Env = append(os.Environ(), fmt.Sprintf("VERIF_SHARD=%s:%d/%d", name, i, n), "GOMAXPROCS=2")
 			cmd.ExtraFiles = []*os.File{pw}
 			var stderr bytes.Buffer
@@ -542,4 +542,14 @@ func runSharded(c *runCtx, name string, body func(shard, shards int, sink *shard
 	wg.Wait()
 
 	return merged
+}
+
+// childArgs: arguments for a child process of the check. In the coverage survey (developer aid, bin/check cover)
+// every process of a run writes its own coverage counters to the directory named by VERIF_COVER.
+func childArgs(args ...string) []string {
+	if dir := os.Getenv("VERIF_COVER"); dir != "" {
+		args = append(args, "-test.gocoverdir="+dir)
+	}
+
+	return args
 }
